@@ -164,6 +164,14 @@ def families(rng, quick):
                                                                           Ret(B("+", Mem(V("s2"), "m"), Idx(V("arr2"), I(1))))])]),
                     [{"fn": "f", "args": {"a": value(t, rng), "i": 1}}, {"fn": "f", "args": {"a": value(t, rng), "i": 3}}]))
         out.append(("default", Module([fn([("i", "int")], t, [Decl(t, "x", None), Decl(t, "y", B("+", V("x"), V("x"))), Ret(V("y"))])]), [{"fn": "f", "args": {"i": 0}}]))
+    # F8: the result of a comparison (an int vector / matrix of the operands' shape) used in arithmetic with the float operand: an implicit cast
+    #     of a whole vector or matrix
+    for t in TYPES:
+        if not t.startswith("float") or t == "float":
+            continue
+        for cmp_ in ("==", "<", "!="):
+            for form in (lambda: B("+", P(B(cmp_, V("a"), V("b"))), V("a")), lambda: B("*", P(B(cmp_, V("a"), V("b"))), F("2.5")), lambda: B("-", V("a"), P(B(cmp_, V("a"), V("b"))))):
+                out.append(("comparison-in-arithmetic", Module([fn([("a", t), ("b", t)], t, [Ret(form())])]), [{"fn": "f", "args": {"a": value(t, rng), "b": value(t, rng)}}]))
     # F7: a name of an enclosing scope declared again, with another type, in a nested scope (branch, block, loop body, for-initialiser) and the
     #     outer variable used afterwards: the front end must reject the program (one flat name table per function at run time)
     outer = [("int", [4], lambda: Idx(V("x"), I(0)), "int"), ("float4", None, lambda: Idx(V("x"), I(3)), "float"), ("int", None, lambda: B("+", V("x"), I(1)), "int"),
